@@ -56,7 +56,7 @@ CHECKS = {
     ),
     "C07": dict(
         text="Every conjunction of up to three counterfactual event items (all consistent subscript assignments incl. reflexive ones, "
-        "values - and +) on every labelled ADMG up to 3 nodes is passed to id_star; the result is evaluated on two functional witness SCMs by "
+        "values - and +; three-world triples included) on every labelled ADMG up to 3 nodes is passed to id_star; the result is evaluated on two functional witness SCMs by "
         "enumerating every exogenous setting, for every base value assignment, and compared with the probability of the "
         "conjunction; Zero() is accepted only for probability-zero events; only the 'unidentifiable' refusal may be raised. "
         "Three defect mechanisms of ID* that the repository's own tests pin are listed in known_findings.json with an index of "
@@ -77,7 +77,8 @@ CHECKS = {
     "C18": dict(
         text="Same event space: make_counterfactual_graph's relabelled event must have the same probability as the original on the "
         "functional witness for every base assignment, 'inconsistent' only for probability-zero events, and the returned graph "
-        "must be a DAG equal to the ancestors of the relabelled event's variables.",
+        "must be a DAG equal to the ancestors of the relabelled event's variables; graph and event dict must come back unchanged. "
+        "Builder phase: every sequence of three edge insertions on one live graph object, the construction asked after every insertion.",
         note="Trusted: mc/fscm.py. Exceptions on events containing a self-intervened variable are counted, not judged (the property "
         "promises no result there).",
         design="4/C18",
@@ -89,7 +90,8 @@ CHECKS = {
         "event of up to two items (repeated variables allowed): simplify must preserve the event's probability (None only at "
         "probability zero) get_ancestral_components is compared with Definition 4.2, and the counterfactual-factor factorisation of non-reflexive "
         "queries must evaluate to the query's probability with multi-world terms obtained by noise enumeration. Defects pinned by the repository's tests are listed "
-        "with an index of failing inputs.",
+        "with an index of failing inputs. The definitional clauses are also checked on four-node graphs, and (with the components) "
+        "after every step of every sequence of three edge insertions on one live graph object.",
         note="Trusted: mc/fscm.py and the definition-based references for Definitions 2.1 and 4.2 (two worlds of one vertex are "
         "treated as linked, since they share exogenous noise).",
         design="4/C19",
@@ -100,7 +102,8 @@ CHECKS = {
         "expression is evaluated on a multi-domain functional witness family (source model shares every mechanism with the target "
         "except at S and Z) by exhaustive noise enumeration with the returned event's values and compared with the target "
         "(conditional) probability; Zero() only for impossible events; after validation only a result or None may come back. "
-        "Defects inherited from SIMPLIFY / ctf-factor handling are listed with an index of failing inputs.",
+        "Defects inherited from SIMPLIFY / ctf-factor handling are listed with an index of failing inputs. Builder phase: the target "
+        "graph object and one selection-diagram object per domain are grown in place, ctfTRu asked after every insertion.",
         note="Trusted: mc/fscm.py multi-domain family; errors raised by y0's input-validation routines count as refusals.",
         design="4/C09",
     ),
@@ -139,14 +142,17 @@ CHECKS = {
         text="For every graph of the bound, every size limit k (None, 0..n-2, n) and three enumeration variants, the returned set of "
         "judgements is compared pair by pair with minimum separating-set sizes computed by brute force with the path-definition "
         "oracle: exactly one canonical, true, minimum-size judgement per separable pair within the limit, none otherwise; "
-        "repeated under several hash seeds.",
+        "repeated under several hash seeds. All name-ordered five- and six-node DAGs are screened with the oracle and those whose "
+        "minimum separators lie upstream of the parents are explored; builder phase: every sequence of three edge insertions on "
+        "one live graph object, the independencies asked after every insertion.",
         note="Trusted: path-definition separation oracle; k is read inclusively (docstring: longest set of conditions to investigate).",
         design="4/C15",
     ),
     "C20": dict(
         text="Every (a, b, C) on every ADMG of the bound is passed to are_sigma_separated and compared with the path-definition "
         "d-separation oracle; on every cyclic directed mixed graph of the bound the verdict is compared with the reversed call "
-        "(symmetry) and with the adjacency rule.",
+        "(symmetry) and with the adjacency rule; on graphs up to four nodes the conditioning set is also given as a frozenset and "
+        "as a one-shot generator.",
         note="Trusted: path-definition separation oracle. Cyclic graphs: only symmetry and adjacency are judged, as the property states.",
         design="4/C20",
     ),
@@ -171,7 +177,8 @@ CHECKS = {
     "C04": dict(
         text="Every ordered pair and conditioning set on every labelled ADMG up to 4 nodes (thorough: plus five-node graphs up "
         "to 6 edges), under all node-insertion permutations / reversed edge lists and several hash seeds, and after every step of every "
-        "sequence of three edge insertions on one live graph object, is passed to the real are_d_separated and compared with the path definition of d-separation on the latent-expanded DAG.",
+        "sequence of three edge insertions on one live graph object, is passed to the real are_d_separated and compared with the path definition of d-separation on the latent-expanded DAG; "
+        "the conditioning set is given as list, reversed tuple and (up to three nodes) frozenset and one-shot generator.",
         note="Trusted: the path-definition oracle (mc/graphs.py dsep_paths), cross-checked against Bayes-ball in selftest.",
         design="4/C04",
     ),
